@@ -876,12 +876,18 @@ impl<'c> Gen<'c> {
                     0..=3 => self.comparison(d),
                     4 => {
                         let a = self.expr(ty, d, Fix::Direct);
-                        let b = self.expr(ty, d, Fix::Direct);
+                        let b = match self.exit_operand(d) {
+                            Some(x) => x,
+                            None => self.expr(ty, d, Fix::Direct),
+                        };
                         Expr::Bin(BinOp::And, Box::new(a), Box::new(b))
                     }
                     5 => {
                         let a = self.expr(ty, d, Fix::Direct);
-                        let b = self.expr(ty, d, Fix::Direct);
+                        let b = match self.exit_operand(d) {
+                            Some(x) => x,
+                            None => self.expr(ty, d, Fix::Direct),
+                        };
                         Expr::Bin(BinOp::Or, Box::new(a), Box::new(b))
                     }
                     6 => {
@@ -1588,6 +1594,14 @@ impl<'c> Gen<'c> {
                     out.push(Stmt::Expr(Expr::Method(Box::new(Expr::Var(v.name.clone())), "swap".into(), vec![i, j])));
                 }
             }
+            13 if !self.in_const && self.c.chance(60) => {
+                // `c && return x;` / `c || return x;`: the statement leaves the function only
+                // when the right operand runs
+                let c = self.expr(&Ty::Bool, d, Fix::Direct);
+                let r = self.return_expr(d.min(1));
+                let op = if self.c.chance(128) { BinOp::Or } else { BinOp::And };
+                out.push(Stmt::Expr(Expr::Bin(op, Box::new(c), Box::new(r))));
+            }
             13 => {
                 // expression statement whose value is discarded
                 let t = self.value_ty(1);
@@ -1605,6 +1619,16 @@ impl<'c> Gen<'c> {
                 out.push(s);
             }
         }
+    }
+
+    /// an operand that leaves the function instead of producing a value (`return ..`, `accept ..`,
+    /// `reject ..`), bare or as the value of a block; whether it runs is up to the operator around it
+    fn exit_operand(&mut self, d: u32) -> Option<Expr> {
+        if self.in_const || !self.c.chance(22) {
+            return None;
+        }
+        let r = self.return_expr(d.min(1));
+        Some(if self.c.chance(100) { Expr::Block(Block { stmts: vec![], tail: Some(Box::new(r)) }) } else { r })
     }
 
     fn return_expr(&mut self, d: u32) -> Expr {
